@@ -23,7 +23,7 @@ from ..common import Ctx, ROOT, env_for_repo
 
 COMBOS = [("Smooth", "UnitSquare"), ("Smooth", "PiSquare"), ("Singular", "UnitSquare"), ("Singular", "LShape")] + \
     [(p, d) for p in ("Dirichlet", "MildSingular") for d in ("UnitSquare", "PiSquare", "LShape", "Circle")]
-CFG_M = "CONSTANTS MaxIter = 2\nSPECIFICATION Spec\nINVARIANT DefaultsRun\nINVARIANT ResidualAfterSolve\nINVARIANT RejectedFailEarly\nCHECK_DEADLOCK FALSE\n"
+CFG_M = "CONSTANTS MaxIter = 2\nSPECIFICATION Spec\nINVARIANT DefaultsRun\nINVARIANT ResidualAfterSolve\nINVARIANT RejectedFailEarly\nINVARIANT ProtocolFixed\nINVARIANT ProtocolPrefix\nCHECK_DEADLOCK FALSE\n"
 CFG_D = "CONSTANTS MaxIter = 1\nSPECIFICATION Spec\nINVARIANT AnyFlagsRun\nCHECK_DEADLOCK FALSE\n"
 CFG_S = "CONSTANTS MaxRuns = 3\nKeyHasProblem = TRUE\nInlineAtStart = TRUE\nSPECIFICATION Spec\nINVARIANT OwnData\nINVARIANT NoForeignFile\nCHECK_DEADLOCK FALSE\n"
 CFG_T = "CONSTANTS MaxIter = 1\nSPECIFICATION TSpec\nINVARIANT Report\nPOSTCONDITION Done\nCHECK_DEADLOCK FALSE\n"
@@ -92,8 +92,20 @@ def run(prop, tier, seed):
     model["sessions_key_without_problem"] = "OwnData violated (as it must be)" if rsd.violated == "OwnData" else "NOT violated"
     if rsd.violated != "OwnData" and not rsd.machinery_error:
         ctx.machinery_error("Sessions.tla is insensitive to the cache key (diagnostic configuration not violated)")
+    # complete iterations of the unmodified driver (assemble ... refine [grade]) on the meshes it produces itself
+    from .. import loop_lib
+    loops = [("Dirichlet", "UnitSquare", 0, "uniform", "sobolev", 0, 2, 0, 0), ("Smooth", "UnitSquare", 1, "isotropic", "sobolev-l2", 0, 2, 1, 1),
+             ("MildSingular", "Circle", 0, "anisotropic", "sobolev", 0, 3, 0, 0), ("Singular", "LShape", 0, "anisotropic", "sobolev", 1, 2, 0, 1),
+             ("Dirichlet", "UnitSquare", 0, "uniform", "sobolev", 1, 2, 0, 0)]
+    if not quick:
+        loops += [("Smooth", "PiSquare", 0, "anisotropic", "hierarchical", 1, 3, 0, 1), ("Singular", "UnitSquare", 1, "isotropic", "sobolev", 1, 3, 1, 0),
+                  ("Dirichlet", "Circle", 0, "uniform", "sobolev", 1, 2, 0, 0), ("MildSingular", "LShape", 1, "anisotropic", "sobolev-l2", 0, 4, 0, 0)]
     with ThreadPoolExecutor(max_workers=14) as ex:
+        floop = [ex.submit(loop_lib.run_loop, *a) for a in loops]
         results = list(ex.map(worker, jobs))
+        for f in floop:
+            a, rr = f.result()
+            results.append((("loop",) + tuple(a), [r for r in rr if r["k"] != "mesh"]))
     recs = []
     index = []
     for args, rr in results:
@@ -130,7 +142,7 @@ def run(prop, tier, seed):
     ctx.cov = {"evaluations": len(leafs), "distinct_nontrivial": len({(r["problem"], r["domain"], r["exact"], r["mesh"]) for r in leafs}),
                "rule": "12 accepted (problem, domain) combinations x switch x {unmodified example.py up to its first residual, driver entry points on randomly refined meshes}; "
                        "one record per leaf; distinct_nontrivial = (problem, domain, switch, mesh) runs",
-               "samples": leafs[:2], "model": model, "runs": len(jobs), "phase_events": sum(1 for r in recs if r["k"] == "phase"),
+               "samples": leafs[:2], "model": model, "runs": len(jobs) + len(loops), "driver_loops": [list(a) for a in loops], "phase_events": sum(1 for r in recs if r["k"] == "phase"),
                "worst_dev_millionths_of_bound": worst, "judge_tlc": jres.stats()}
     ctx.assumptions = ["element integrals of r and |r|: 8-point Gauss-Legendre panels graded (3 levels, ratio 1/4) towards both ends of every sub-interval cut by the mesh lines crossing the element",
                        "example.py is executed unmodified under runpy in a subprocess with --no-h-h2 and stopped when the residual closure has been built"]
